@@ -255,9 +255,10 @@ Definition decompose_rws (A : mat2) : res (mat2 * mat2 * mat2) :=
         end
   end.
 
-(** math.resolution_from_affine *)
-Definition resolution_from_affine (A : aff) : res (Q * Q) :=
-  if is_affine_st A (1 # 10000000000) then Ok (aa A, ae A)
+(** math.resolution_from_affine; [tol] is is_affine_st's default 1e-10, passed in
+    as the exact value of that binary64 constant *)
+Definition resolution_from_affine (A : aff) (tol : Q) : res (Q * Q) :=
+  if is_affine_st A tol then Ok (aa A, ae A)
   else
     '(_, _, Sm) <- decompose_rws (mkM (aa A) (ab A) (ad A) (ae A)) ;;
     Ok (m00 Sm, m11 Sm).
